@@ -106,6 +106,10 @@ def case(draw):
         m_['ic_text'] = draw(st.booleans())
     from harness import econ
     econs = [draw(econ.economy(zones=(1, 1), horizon=(2, 2), gold=False))] if draw(st.sampled_from([True, False])) else []
+    for e_ in econs:
+        if draw(st.booleans()):
+            # an unrelated model is started in the middle of this economy's construction
+            e_['probes'] = list(e_.get('probes', [])) + [{'at': draw(st.sampled_from([2, 3, 1, 4])), 'kind': 'other-model'}]
     ops = []
     from harness import gen
     for _ in range(draw(st.integers(3, gen.size(10, 20)))):
